@@ -1236,11 +1236,14 @@ class Context:
         vm.globals = self._globals
 
         # Store current VM for timeout checking in RegExp constructor
+        # (restored, not cleared: an exposed Python callable may re-enter eval()
+        # while an outer evaluation of this context is still running)
+        outer_vm = self._current_vm
         self._current_vm = vm
         try:
             result = vm.run(compiled)
         finally:
-            self._current_vm = None
+            self._current_vm = outer_vm
 
         return self._to_python(result)
 
